@@ -50,6 +50,9 @@ fn gen(rng: &mut Rng, k: u64) -> DocD {
     let h = 1 + rng.usize(8) as i32;
     let mut d = DocD::single(w, h);
     d.layers.clear();
+    // sometimes the document is taller than its base layer (canvas enlarged, lower rows come from offset layers alone)
+    let bh = if rng.chance(1, 5) { h + 1 + rng.usize(4) as i32 } else { h };
+    d.h = bh;
     d.font_mode = 0;
     d.palette_mode = 0;
     // every built-in page 0..=42 and every SAUCE font appears in some document: the case index selects one
@@ -83,10 +86,12 @@ fn gen(rng: &mut Rng, k: u64) -> DocD {
         if li > 0 {
             l.alpha = rng.chance(2, 3);
             l.ox = rng.range(-3, w as i64) as i32;
-            l.oy = rng.range(-2, h as i64) as i32;
+            l.oy = rng.range(-2, bh as i64) as i32;
             l.visible = rng.chance(3, 4);
         }
-        for y in 0..lh {
+        // sometimes the base layer stores only its top rows: the lower part of the picture then comes from offset layers alone
+        let stored_rows = if li == 0 && rng.chance(1, 4) { rng.usize(lh as usize) as i32 } else { lh };
+        for y in 0..stored_rows {
             for x in 0..lw {
                 if !rng.chance(if li == 0 { 90 } else { 50 }, 100) {
                     continue;
@@ -170,7 +175,7 @@ impl Prop for C12 {
         "C12"
     }
     fn rule(&self) -> &'static str {
-        "documents of 1..=4 layers (alpha, offset, hidden) up to 24x8 cells whose font slot 0 cycles through every built-in font page 0..=42 and every SAUCE font (plus up to 3 extra slots with other pages), cells over all 256 glyphs with blank glyphs 0/32/255 and the solid block over-represented, colours from the 16 DOS colours plus RGB palette entries, bold, both settings of normalize_whitespaces: Buffer::render_to_rgba of the document and of ColorOptimizer::optimize(document) must be byte-identical and of the same size; the first differing pixel is mapped back to its cell. distinct_nontrivial = distinct (font set, whitespace option, layer shapes) documents plus distinct (font page, glyph) pairs rendered"
+        "documents of 1..=4 layers (alpha, offset, hidden; base layer sometimes storing only its top rows or shorter than the document) up to 24x12 cells whose font slot 0 cycles through every built-in font page 0..=42 and every SAUCE font (plus up to 3 extra slots with other pages), cells over all 256 glyphs with blank glyphs 0/32/255 and the solid block over-represented, colours from the 16 DOS colours plus RGB palette entries, bold, both settings of normalize_whitespaces: Buffer::render_to_rgba of the document and of ColorOptimizer::optimize(document) must be byte-identical and of the same size; the first differing pixel is mapped back to its cell. distinct_nontrivial = distinct (font set, whitespace option, layer shapes) documents plus distinct (font page, glyph) pairs rendered"
     }
     fn meta(&self, ctx: &Ctx) -> Value {
         json!({"floor_evaluations": 1000, "floor_distinct": ctx.tier.pick(3000u64, 20000u64),
